@@ -201,7 +201,7 @@ type c11Config struct {
 	ctxLang  string // "" unset
 	langKey  string
 	testLvl  int // 0 none, 1 Message, 2 MessageFunc
-	execLvl  int // 0 none, 1 WithIssueFormatter
+	execLvl  int // 0 none, 1 WithIssueFormatter, 2 WithErrFormatter (deprecated spelling)
 	expLang  string
 }
 
@@ -232,7 +232,7 @@ func c11ChooseConfig(x *mc.X, e *c11Entry) *c11Config {
 	if !e.noOpts {
 		c.testLvl = x.Choose(3, "testLevel")
 	}
-	c.execLvl = x.Choose(2, "execLevel")
+	c.execLvl = x.Choose(3, "execLevel")
 	return c
 }
 
@@ -267,6 +267,10 @@ func (c *c11Config) execOpts() []z.ExecOption {
 	}
 	if c.execLvl == 1 {
 		o = append(o, z.WithIssueFormatter(func(e *z.ZogIssue, ctx z.Ctx) { e.SetMessage("EXECMSG:" + e.Code) }))
+	}
+	if c.execLvl == 2 {
+		// the older spelling of the same option, still exported
+		o = append(o, z.WithErrFormatter(func(e *z.ZogIssue, ctx z.Ctx) { e.SetMessage("EXECMSG:" + e.Code) }))
 	}
 	return o
 }
@@ -323,7 +327,7 @@ func c11CheckIssue(is *z.ZogIssue, wantDtype, wantCode, pkey string, pval any, c
 		if is.Message != "TESTFUNC:"+is.Code {
 			return "precedence", fmt.Sprintf("message %q is not from the test's own MessageFunc", is.Message)
 		}
-	case cfg.execLvl == 1:
+	case cfg.execLvl >= 1:
 		if is.Message != "EXECMSG:"+is.Code {
 			return "precedence", fmt.Sprintf("message %q is not from the execution's formatter", is.Message)
 		}
